@@ -911,7 +911,8 @@ func runC29Agreement(c *core.Check) {
 		return ok && n.Obj().Name() == "Point" && strings.HasPrefix(strings.ToLower(root.Name()), "label")
 	}
 	rFlags := flagsGuarding(draw, isGeoBoxField)
-	bFlags := flagsGuarding(bb, isLabelPoint)
+	// BoundingBox may move the label point itself or, like the renderer, enlarge the box the label is placed against
+	bFlags := flagsGuarding(bb, func(info *types.Info, lhs ast.Expr) bool { return isLabelPoint(info, lhs) || isGeoBoxField(info, lhs) })
 	if len(rFlags) < 2 {
 		c.Fail("floor", "floor:C29.label-flags", token.NoPos, fmt.Sprintf("only %d style flags enlarge the label box in drawShape (confirmed by hand: ThreeDee, Multiple)", len(rFlags)))
 	}
